@@ -276,6 +276,57 @@ fn reference_run(bits: u32, shift: isize, min_acc: isize, max_acc: isize, size: 
     v
 }
 
+/// Static-mode replay (L6): block of 64 cells, cells 16..48 filled, pointer on cell 32, `execute_unsafe`.
+fn native_run_unchecked<C: CellType>(shift: isize, min_acc: isize, max_acc: isize, scan: Option<isize>) -> Vec<u64> {
+    let mut cxt = Context::<C>::without_io();
+    cxt.memory.make_accessible(0, 64);
+    for i in 16..48u64 {
+        cxt.memory.write(i as isize, C::from_u64(fill(i)));
+    }
+    cxt.memory.mov(32);
+    let e = BcInterpreter::<C>::verif_from_bytecode(confirm_program::<C>(shift, min_acc, max_acc, scan));
+    let _ = unsafe { e.execute_unsafe(&mut cxt) };
+    let mut v: Vec<u64> = Vec::new();
+    let mut first: Option<isize> = None;
+    for j in -256..256isize {
+        let x = cxt.memory.read(j).into_u64();
+        if x != 0 {
+            let f = *first.get_or_insert(j);
+            v.push((j - f) as u64);
+            v.push(x);
+        }
+    }
+    v
+}
+
+fn reference_unchecked(bits: u32, shift: isize, min_acc: isize, max_acc: isize, scan: Option<isize>) -> Vec<u64> {
+    let m = crate::term::mask(bits as u8);
+    let mut tape: std::collections::BTreeMap<i64, u64> = (16..48i64).map(|i| (i, fill(i as u64) & m)).collect();
+    let mut p = 32i64;
+    match scan {
+        None => p += shift as i64,
+        Some(c) => {
+            let mut n = 0;
+            while tape.get(&(p + c as i64)).copied().unwrap_or(0) != 0 && n < 1000 {
+                p += shift as i64;
+                n += 1;
+            }
+        }
+    }
+    tape.insert(p + min_acc as i64, 0x5a);
+    tape.insert(p + max_acc as i64, 0x3c);
+    let mut v = Vec::new();
+    let mut first = None;
+    for (i, x) in tape {
+        if x != 0 {
+            let f = *first.get_or_insert(i);
+            v.push((i - f) as u64);
+            v.push(x);
+        }
+    }
+    v
+}
+
 fn native_run_scan<C: CellType>(jit: bool, shift: isize, min_acc: isize, max_acc: isize, size: u64, k: i64, scan: Option<isize>) -> Vec<u64> {
     let mut cxt = Context::<C>::without_io();
     cxt.memory.make_accessible(0, size as isize);
@@ -309,6 +360,33 @@ fn native_run_scan<C: CellType>(jit: bool, shift: isize, min_acc: isize, max_acc
 pub fn replay(v: &Value) -> i32 {
     let g = |k: &str| v[k].as_i64().unwrap_or(0);
     let (shift, mn, mx, size, k) = (g("shift") as isize, g("min") as isize, g("max") as isize, g("size") as u64, g("k"));
+    if v["engine"].as_str() == Some("bcint-unchecked") {
+        // static mode: plain pointer arithmetic inside a pre-grown region, guard pages on both placements
+        let scan = v["scan_cond"].as_i64().map(|c| c as isize);
+        let bits = g("width") as u32;
+        if shift == 0 || shift.abs() > 8 || mn < -8 || mx > 8 || scan.map_or(false, |c| c.abs() > 4) {
+            println!("NOT-REPRODUCED: configuration outside what the static-mode replay rebuilds");
+            return 0;
+        }
+        let want = reference_unchecked(bits, shift, mn, mx, scan);
+        for mode in [1u8, 2u8] {
+            crate::guard::set_case(&v.to_string());
+            crate::guard::set_mode(mode);
+            let got = match bits {
+                8 => native_run_unchecked::<u8>(shift, mn, mx, scan),
+                16 => native_run_unchecked::<u16>(shift, mn, mx, scan),
+                32 => native_run_unchecked::<u32>(shift, mn, mx, scan),
+                _ => native_run_unchecked::<u64>(shift, mn, mx, scan),
+            };
+            crate::guard::set_mode(0);
+            if got != want {
+                println!("REPRODUCED property={} bytecode interpreter in static mode, {} by {} (condition offset {:?}) with window [{}, {}] at {} bits: tape differs from the unbounded-tape reading (non-zero cells {} / {})", v["property"].as_str().unwrap_or("C10"), if scan.is_some() { "scan" } else { "move" }, shift, scan, mn, mx, bits, got.len() / 2, want.len() / 2);
+                return 1;
+            }
+        }
+        println!("NOT-REPRODUCED: the bytecode interpreter in static mode leaves the tape of the unbounded-tape reading");
+        return 0;
+    }
     let far = is_far(g("width") as u32, shift, mn, mx);
     let _ = far;
     if size == 0 || size > 4096 + (mx - mn) as u64 || k + (mn as i64) < 0 || k + (mx as i64) >= size as i64 {
